@@ -248,6 +248,21 @@ def run(ctx, report):
         except Exception:  # noqa
             continue
         cases.append(('dense', 'dense map=%s' % name, docgen.encode(segs, d, '')))
+        # the same document with blanks around / instead of composite components and simple values (values are data: they
+        # must come back character for character)
+        padded = []
+        for sg_ in segs:
+            parts_ = sg_.split(d[1])
+            if parts_[0] not in docgen.ENVELOPE:
+                for k_ in range(1, len(parts_)):
+                    if d[2] in parts_[k_] and rng.random() < 0.6:
+                        comps_ = parts_[k_].split(d[2])
+                        j_ = rng.randrange(len(comps_))
+                        if comps_[j_] != '':
+                            comps_[j_] = rng.choice([comps_[j_] + ' ', ' ' + comps_[j_], comps_[j_] + '  ']) if j_ > 0 or len(comps_) == 1 else comps_[j_]
+                        parts_[k_] = d[2].join(comps_)
+            padded.append(d[1].join(parts_))
+        cases.append(('dense', 'dense+padded-components map=%s' % name, docgen.encode(padded, d, '')))
     pipecorr.run(report, ctx, rng, cases, 2, oracle, force=lambda m: m[2] == 'X')
     # XML -> X12: model vs implementation on the trees the implementation produced
     if ctx['driver_ok'] and xml_texts:
